@@ -81,9 +81,9 @@ theorem isDirB_absent (root : Bool) (s : FS) (d x : Name) (hd : isDirAt s [d] = 
   | absent h _ => rw [h]
   | here v h hv => rw [hn] at hv; cases hv
 
-theorem createLayer_recreated (root : Bool) (api : Api) (s : FS) (n : Name) (hd : isDirAt s [layersName] = true)
-    (hg : Gone n s) (hok : (createLayer root api s n).1 = .ok ()) :
-    Recreated n (freshToml api) (createLayer root api s n).2 := by
+theorem createLayer_recreated (root : Bool) (api : Api) (bp : Bp) (s : FS) (n : Name) (hd : isDirAt s [layersName] = true)
+    (hg : Gone n s) (hok : (createLayer root api bp s n).1 = .ok ()) :
+    Recreated n (freshToml api) (createLayer root api bp s n).2 := by
   have hL : fget s (layerPath n) = none := hg _ (own_layer n)
   have hT : fget s (tomlPath n) = none := hg _ (own_toml n)
   unfold createLayer at hok ⊢
@@ -93,6 +93,11 @@ theorem createLayer_recreated (root : Bool) (api : Api) (s : FS) (n : Name) (hd 
   · rw [show layerPath n = [layersName, n] from rfl] at hok ⊢
     rw [he] at hok ⊢
     dsimp only at hok ⊢
+    cases hcf : createFails api bp with
+    | true => rw [hcf] at hok; cases hok
+    | false =>
+    rw [hcf] at hok
+    simp only [Bool.false_eq_true, if_false] at hok ⊢
     -- s1: the directory exists
     have hf1 : Frame n s (fset s [layersName, n] (.dir newDirMode)) := frame_fset_own s _ (own_layer n)
     have hd1 := layersDir_of_frame hf1 hd
@@ -154,14 +159,14 @@ theorem createLayer_recreated (root : Bool) (api : Api) (s : FS) (n : Name) (hd 
 theorem tag_fst_ok {b b' : Bool} {r : CreateRes} (h : (tag b r).1 = .ok b') : r.1 = .ok () ∧ b = b' := by
   obtain ⟨res, s⟩ := r
   cases res with
-  | error e => cases h
+  | error e => obtain ⟨st, e⟩ := e; cases h
   | ok u => simp [tag] at h; exact ⟨rfl, h⟩
 
 /-- a request that reports having deleted an existing layer leaves a fresh empty layer -/
-theorem request_recreated_lemma (root : Bool) (api : Api) (t : FS) (n : Name) (hd : isDirAt t [layersName] = true)
+theorem request_recreated_lemma (root : Bool) (api : Api) (bp : Bp) (t : FS) (n : Name) (hd : isDirAt t [layersName] = true)
     (hb : isDirAt t (layerPath n) = false → ∀ k, isPre (layerPath n) k = true → k ≠ layerPath n → fget t k = none)
-    (hok : (request root api t n).1 = .ok true) :
-    Recreated n (freshToml api) (request root api t n).2 := by
+    (hok : (request root api bp t n).1 = .ok true) :
+    Recreated n (freshToml api) (request root api bp t n).2 := by
   unfold request at hok ⊢
   dsimp only at hok ⊢
   split at hok
@@ -214,15 +219,19 @@ theorem request_recreated_lemma (root : Bool) (api : Api) (t : FS) (n : Name) (h
           · cases hok
           · rename_i hgar
             simp only [hgar, if_false]
-            have hgone := deleteLayer_gone root s1 n hd1 hb1
-            have hfr := deleteLayer_frame root s1 n hd1
-            generalize deleteLayer root s1 n = r at hgone hfr hok
-            obtain ⟨res, s2⟩ := r
-            cases res with
-            | error e => cases hok
-            | ok u =>
-              dsimp only at hok ⊢
-              rw [tag_snd]
-              exact createLayer_recreated root api s2 n (layersDir_of_frame hfr hd1) (hgone rfl) (tag_fst_ok hok).1
+            split at hok
+            · cases hok
+            · rename_i hdec
+              simp only [hdec, Bool.false_eq_true, if_false]
+              have hgone := deleteLayer_gone root s1 n hd1 hb1
+              have hfr := deleteLayer_frame root s1 n hd1
+              generalize deleteLayer root s1 n = r at hgone hfr hok
+              obtain ⟨res, s2⟩ := r
+              cases res with
+              | error e => cases hok
+              | ok u =>
+                dsimp only at hok ⊢
+                rw [tag_snd]
+                exact createLayer_recreated root api bp s2 n (layersDir_of_frame hfr hd1) (hgone rfl) (tag_fst_ok hok).1
 
 end CnbVerif.RmTree
